@@ -18,7 +18,7 @@ import (
 func init() {
 	core.Register(&core.Prop{
 		ID: "C01",
-		Rule: "case = one pair of valid polygonal operands in general position (operands with more than one ring are additionally presented as ONE polygon holding all rings in random order - a hole may precede its shell, as in the library's own Difference/Union results - half of those laid out as consecutive sub-slices of one backing array; star rings of 3-60 vertices (300 thorough) with 0-3 holes, rotated comb and staircase rings, multi-polygons of 2-4 disjoint members, boxes; configurations: overlapping, B inside A, B inside a hole of A, A inside B, disjoint with overlapping bounding boxes, bounding-box-disjoint on one or both axes; random ring orientation/start/closure) run through all four operations plus the reverse difference for every receiver/argument presentation {Polygon, MultiPolygon, *Bounds}^2 the shapes admit; " +
+		Rule: "case = one pair of valid polygonal operands in general position (operands with more than one ring are additionally presented as ONE polygon holding all rings in random order - a hole may precede its shell, as in the library's own Difference/Union results - half of those laid out as consecutive sub-slices of one backing array; star rings of 3-60 vertices (300 thorough) with 0-3 holes, rotated comb and staircase rings, multi-polygons of 2-4 disjoint members, boxes; configurations: operands differing in size by 10^3..10^6.3 (a triangle inside / in a hole of / next to a large shape), overlapping, B inside A, B inside a hole of A, A inside B, disjoint with overlapping bounding boxes, bounding-box-disjoint on one or both axes; random ring orientation/start/closure) run through all four operations plus the reverse difference for every receiver/argument presentation {Polygon, MultiPolygon, *Bounds}^2 the shapes admit; " +
 			"each result is judged at <= 96 margin points by the harness's exact even-odd membership (A, B and result rings), by the inclusion-exclusion area identities (exact Operand areas, nesting-parity area of the result rings), ring closure and the empty-result rule; " +
 			"an evaluation is one operation result judged; non-trivial = Operand pair whose true intersection and both differences each contain a margin point (distinct by Operand hash)",
 		Assumptions: []string{"operands validated by the harness: simple rings, holes inside shells, no vertex of one Operand within 1e-7*diameter of an edge of the other (general position)", "test points keep 1e-7*diameter clear of every input edge", "Polygonal.Area() of a result is compared only when its rings do not touch each other (geom documents hole detection as undefined there)"},
@@ -31,7 +31,7 @@ func init() {
 		Run: run,
 		Floors: func(t string) map[string]int64 {
 			m := map[string]int64{"cfg.overlapping": 200, "cfg.b_inside_a": 100, "cfg.b_inside_hole_of_a": 100, "cfg.a_inside_b": 100, "cfg.disjoint_bbox_overlap": 100,
-				"cfg.bbox_disjoint_both_axes": 100, "cfg.bbox_disjoint_one_axis": 100, "cfg.box_corners_inside_concave": 100, "points.judged": 100000, "area.identities_checked": 1000, "area.method_compared": 1000, "result.empty_correct": 500, "kind.nested": 50, "presentation.rings_shuffled_into_one_polygon": 300}
+				"cfg.bbox_disjoint_both_axes": 100, "cfg.bbox_disjoint_one_axis": 100, "cfg.box_corners_inside_concave": 100, "cfg.tiny_next_to_huge": 100, "points.judged": 100000, "area.identities_checked": 1000, "area.method_compared": 1000, "result.empty_correct": 500, "kind.nested": 50, "presentation.rings_shuffled_into_one_polygon": 300}
 			for _, a := range []string{"Polygon", "MultiPolygon", "*Bounds"} {
 				for _, b := range []string{"Polygon", "MultiPolygon", "*Bounds"} {
 					m["pair."+a+"x"+b] = 40
@@ -323,7 +323,7 @@ func generalPosition(a, b *Operand, delta float64) bool {
 }
 
 var kinds = []string{"star", "star", "starholes", "starholes", "comb", "stair", "multi", "nested", "box", "box"}
-var configs = []string{"overlapping", "overlapping", "overlapping", "box_corners_inside_concave", "b_inside_a", "b_inside_hole_of_a", "a_inside_b", "disjoint_bbox_overlap", "bbox_disjoint_both_axes", "bbox_disjoint_one_axis"}
+var configs = []string{"overlapping", "overlapping", "overlapping", "box_corners_inside_concave", "b_inside_a", "b_inside_hole_of_a", "a_inside_b", "disjoint_bbox_overlap", "bbox_disjoint_both_axes", "bbox_disjoint_one_axis", "tiny_next_to_huge"}
 
 func run(c *core.Ctx, idx int) {
 	r := c.R
@@ -382,6 +382,34 @@ func run(c *core.Ctx, idx int) {
 		bring := geom.Path{{X: bx.Min.X, Y: bx.Min.Y}, {X: bx.Max.X, Y: bx.Min.Y}, {X: bx.Max.X, Y: bx.Max.Y}, {X: bx.Min.X, Y: bx.Max.Y}}
 		b = Operand{Polys: []geom.Polygon{{gen.RespellRandom(r, bring)}}, Box: &bx, Cx: (bx.Min.X + bx.Max.X) / 2, Cy: (bx.Min.Y + bx.Max.Y) / 2, Out: math.Hypot(bx.Max.X-bx.Min.X, bx.Max.Y-bx.Min.Y), Kind: "box"}
 		b.finish()
+		if r.Bool() {
+			a, b = b, a
+		}
+	case "tiny_next_to_huge":
+		// operands whose sizes differ by 10^3 .. 10^6.3 (a parcel against a country, a cell against
+		// the world box): the small one - usually a triangle - strictly inside the big one, inside
+		// one of its holes, or just outside it
+		big := GenOperand(r, ox, oy, ra, []string{"star", "box", "starholes"}[r.Intn(3)], maxVerts)
+		ratio := math.Pow(10, -r.Range(3, 6.3))
+		mv := 3
+		if r.Chance(0.4) {
+			mv = r.IntRange(4, 8)
+		}
+		var sx, sy float64
+		switch {
+		case len(big.Holes) > 0 && r.Bool():
+			h := big.Holes[r.Intn(len(big.Holes))]
+			sx, sy = h.X+h.In*r.Range(-0.3, 0.3), h.Y+h.In*r.Range(-0.3, 0.3)
+		case big.In > 0 && r.Chance(0.7):
+			sx, sy = ox+big.In*r.Range(-0.5, 0.5), oy+big.In*r.Range(-0.5, 0.5)
+		default:
+			th := r.Range(0, 2*math.Pi)
+			sx, sy = ox+ra*1.05*math.Cos(th), oy+ra*1.05*math.Sin(th)
+		}
+		sh := gen.StarPolygon(r, sx, sy, ra*ratio, mv, 0, 0)
+		small := Operand{Polys: []geom.Polygon{sh.Poly}, Cx: sx, Cy: sy, Out: ra * ratio * 1.001, In: sh.InR, Kind: "tiny"}
+		small.finish()
+		a, b = big, small
 		if r.Bool() {
 			a, b = b, a
 		}
